@@ -121,6 +121,7 @@ static struct { const char *name; opfn fn; int forked; } OPS[] = {
     {"OPENRETRY", op_openretry, 1},
     {"PINSWAP", op_pinswap, 1},
     {"OPENRESET", op_openreset, 1},
+    {"OPENLATE", op_openlate, 1},
     {"READSEQ", op_readseq, 1},
     {"SCAN", op_scan, 1},
     {"CHUNKSEQ", op_chunkseq, 1},
